@@ -243,8 +243,16 @@ func execC18(t *testing.T, prog *hx.Program, dec *simrt.Decider, verbose bool) *
 		if !up() {
 			return
 		}
+		// Operations keep being committed on their own (a consumer group member expires): what is judged is
+		// the committed log up to the index the dispatcher was seen to have caught up with.
+		judgeUpTo := uint64(0)
 		if !h.pollFor("activity-caught-up", 90*time.Second, func() bool {
-			return n.srv.activity.LastPublishedRaftIndex() >= c18LastEventIndex(h)
+			last := c18LastEventIndex(h)
+			if n.srv.activity.LastPublishedRaftIndex() >= last {
+				judgeUpTo = last
+				return true
+			}
+			return false
 		}) && len(h.s.Panics) == 0 {
 			sig := "C18/not-caught-up"
 			if p := n.srv.metadata.GetPartition(activityStream, 0); p != nil && p.recovered && !p.isLeading {
@@ -298,7 +306,7 @@ func execC18(t *testing.T, prog *hx.Program, dec *simrt.Decider, verbose bool) *
 		}
 		// every committed operation has its event, with its Raft index as id
 		for _, e := range h.cluster.Log {
-			if e.Type != raft.LogCommand {
+			if e.Type != raft.LogCommand || e.Index > judgeUpTo {
 				continue
 			}
 			op := &proto.RaftLog{}
